@@ -23,10 +23,12 @@ fn make_pair(s: &mut Session, rng: &mut Rng, proto: &'static str, ws: bool) -> O
     let (c, sv) = (s.fresh("c"), s.fresh("s"));
     let addr = random_addr(rng);
     let ad = if ws { " adapter=ws" } else { "" };
-    if proto == "vmess-aes" || proto == "vmess-chacha" {
-        let cipher = if proto == "vmess-aes" { "aes-128-gcm" } else { "chacha20-poly1305" };
+    if proto.starts_with("vmess-") {
+        let cipher = if proto.starts_with("vmess-aes") { "aes-128-gcm" } else { "chacha20-poly1305" };
+        // (`-udp`: the udp command - every write is one datagram, one chunk each)
+        let cmd = if proto.ends_with("-udp") { "udp" } else { "tcp" };
         let uuid = random_uuid(rng);
-        s.run(&format!("vm.client {} uuid={} cipher={} cmd=tcp addr={}", c, uuid, cipher, addr));
+        s.run(&format!("vm.client {} uuid={} cipher={} cmd={} addr={}", c, uuid, cipher, cmd, addr));
         s.run(&format!("vm.server {} users=a:{}{}", sv, uuid, ad));
         let u = uuid.clone();
         let (u2, a2) = (uuid.clone(), addr.clone());
@@ -36,7 +38,7 @@ fn make_pair(s: &mut Session, rng: &mut Rng, proto: &'static str, ws: bool) -> O
             n
         }), remake_client: Box::new(move |s| {
             let n = s.fresh("c");
-            s.run(&format!("vm.client {} uuid={} cipher={} cmd=tcp addr={}", n, u2, cipher, a2));
+            s.run(&format!("vm.client {} uuid={} cipher={} cmd={} addr={}", n, u2, cipher, cmd, a2));
             n
         }) });
     }
@@ -159,7 +161,7 @@ pub fn generate(s: &mut Session, tier: &str, rng: &mut Rng) {
     // chunks can be exchanged or replayed unnoticed exactly where a (key, nonce) pair repeats: the two nonce generators
     // against the specifications' sequences, far beyond the lengths the stream cases reach
     crate::c12::nonce_generator_cases(s, tier, rng);
-    let protos: Vec<&'static str> = CIPHERS.iter().copied().chain(["vmess-aes", "vmess-chacha"]).collect();
+    let protos: Vec<&'static str> = CIPHERS.iter().copied().chain(["vmess-aes", "vmess-chacha", "vmess-aes-udp", "vmess-chacha-udp"]).collect();
     for proto in protos {
         for ws in [false, true] {
             s.begin_case(&format!("{}:{}", proto, if ws { "ws" } else { "framed" }));
